@@ -113,8 +113,8 @@ class ProxiedRegion(BaseClientRegion):
         if name in self.caps:
             # If we have an existing cap then we should just use that.
             cap_data = self.caps[name]
-            if cap_data[1] == CapType.PROXY_ONLY:
-                return cap_data[0]
+            if cap_data[0] == CapType.PROXY_ONLY:
+                return cap_data[1]
         cap_url = f"http://{uuid.uuid4()!s}.caps.hippo-proxy.localhost"
         self.register_cap(name, cap_url, CapType.PROXY_ONLY)
         return cap_url
